@@ -153,23 +153,25 @@ func (n *vnode) info(name string) os.FileInfo {
 
 // vfs implements all handler interfaces; which optional ones are visible is decided by the wrapper types below.
 type vfs struct {
-	badBytes   []int   // handler ReadAt / WriteAt calls whose range contains one of these positions fail with "E@<lowest>"
-	hlog       []hcall // every handler entry-point invocation (kept in memory for the adapter checks)
-	delay      func()  // optional: called at the start of every ReadAt / WriteAt handler call (schedule perturbation)
-	quiet      bool
-	calls      int64 // number of handler / object method invocations (atomic)
-	mu         sync.Mutex
-	nodes      map[string]*vnode // absolute clean path -> node
-	tr         *tracer
-	gate       *gateCtl
-	nobj       int
-	objs       []*vobj
-	failAt     map[string]error                                           // "R:<off>" / "W:<off>" / "open:<path>" / "cmd:<method>" / "list:<path>" -> error to return
-	listScript func(obj *vobj, dst []os.FileInfo, off int64) (int, error) // optional scripted ListAt
-	readHook   func(obj *vobj, p []byte, off int64) (int, error, bool)    // optional override
-	realpath   func(string) (string, error)
-	statvfs    *StatVFS
-	epoch      time.Time
+	closeErrEvery int     // > 0: the Close method of every object whose id is a multiple of it returns an error (it still releases the object)
+	reenter       bool    // handler objects call the exported Request API (Context, WithContext) from inside their methods, as a real handler may
+	badBytes      []int   // handler ReadAt / WriteAt calls whose range contains one of these positions fail with "E@<lowest>"
+	hlog          []hcall // every handler entry-point invocation (kept in memory for the adapter checks)
+	delay         func()  // optional: called at the start of every ReadAt / WriteAt handler call (schedule perturbation)
+	quiet         bool
+	calls         int64 // number of handler / object method invocations (atomic)
+	mu            sync.Mutex
+	nodes         map[string]*vnode // absolute clean path -> node
+	tr            *tracer
+	gate          *gateCtl
+	nobj          int
+	objs          []*vobj
+	failAt        map[string]error                                           // "R:<off>" / "W:<off>" / "open:<path>" / "cmd:<method>" / "list:<path>" -> error to return
+	listScript    func(obj *vobj, dst []os.FileInfo, off int64) (int, error) // optional scripted ListAt
+	readHook      func(obj *vobj, p []byte, off int64) (int, error, bool)    // optional override
+	realpath      func(string) (string, error)
+	statvfs       *StatVFS
+	epoch         time.Time
 }
 
 // ev logs a handler-level event unless the session is quiet (stream tests only need the final object report).
@@ -180,7 +182,7 @@ func (v *vfs) ev(name string, f kv) {
 }
 
 func newVfs(tr *tracer, gate *gateCtl) *vfs {
-	v := &vfs{nodes: map[string]*vnode{}, tr: tr, gate: gate, failAt: map[string]error{}, epoch: time.Unix(1700000000, 0)}
+	v := &vfs{nodes: map[string]*vnode{}, tr: tr, gate: gate, failAt: map[string]error{}, epoch: time.Unix(1700000000, 0), reenter: true}
 	v.nodes["/"] = &vnode{name: "/", isDir: true, mode: 0o755, mtime: v.epoch}
 	return v
 }
@@ -236,15 +238,39 @@ type vobj struct {
 	terr   int
 	ents   []os.FileInfo // for listers
 	tag    int           // set by the harness: the (small integer) handle this object belongs to
+	req    *Request      // the request the object was obtained for
+}
+
+// closeFails: the object's Close reports an error (a handler is free to do so; the handle is released all the same).
+func (o *vobj) closeFails() bool { return o.v.closeErrEvery > 0 && o.id%o.v.closeErrEvery == 0 }
+
+// probe: a handler object may use the exported API of its Request at any time (e.g. to derive a context for a
+// backend call); the package must not hold the request's locks while it calls into a handler.
+func (o *vobj) probe() {
+	if o.v.reenter && o.req != nil {
+		_ = o.req.WithContext(o.req.Context())
+	}
 }
 
 func (v *vfs) newObj(kind, p string, n *vnode, r *Request) *vobj {
 	v.mu.Lock()
 	v.nobj++
-	o := &vobj{v: v, id: v.nobj, kind: kind, path: p, node: n, ctx: r.Context()}
+	o := &vobj{v: v, id: v.nobj, kind: kind, path: p, node: n, ctx: r.Context(), req: r}
 	v.objs = append(v.objs, o)
 	v.mu.Unlock()
 	return o
+}
+
+// objByTag returns the object the harness tagged with the given handle number (nil if none).
+func (v *vfs) objByTag(tag int) *vobj {
+	v.mu.Lock()
+	defer v.mu.Unlock()
+	for _, o := range v.objs {
+		if o.tag == tag {
+			return o
+		}
+	}
+	return nil
 }
 
 // lastObj returns the most recently created object (nil if none).
@@ -291,6 +317,7 @@ func (o *vobj) ReadAt(p []byte, off int64) (int, error) {
 	o.begin("R", off, len(p))
 	o.v.gate.pass("R:" + itoa(int(off)))
 	o.v.gate.pass("obj:" + itoa(o.id))
+	o.probe()
 	var n int
 	var err error
 	if h := o.v.readHook; h != nil {
@@ -324,6 +351,7 @@ func (o *vobj) WriteAt(p []byte, off int64) (int, error) {
 	o.begin("W", off, len(p))
 	o.v.gate.pass("W:" + itoa(int(off)))
 	o.v.gate.pass("obj:" + itoa(o.id))
+	o.probe()
 	var n int
 	var err error
 	if e := o.v.fail("W:" + itoa(int(off))); e != nil {
@@ -355,6 +383,11 @@ func (o *vobj) Close() error {
 	o.closed++
 	o.v.ev("ObjClose", kv{"obj": o.id, "kind": o.kind, "inflight": o.inflt, "nclose": o.closed})
 	o.mu.Unlock()
+	// no probe here: the package closes a lister under the request's state lock (request.go closeListerAt), and no
+	// property speaks about what an optional Close method may call
+	if o.closeFails() {
+		return fmt.Errorf("close failed")
+	}
 	return nil
 }
 
@@ -372,6 +405,7 @@ func (o *vobj) ListAt(dst []os.FileInfo, off int64) (int, error) {
 	o.v.ev("OpBegin", kv{"obj": o.id, "rw": "L", "off": int(off), "len": len(dst), "closed": o.closed})
 	o.mu.Unlock()
 	o.v.gate.pass("L:" + itoa(o.id))
+	o.probe()
 	var n int
 	var err error
 	if s := o.v.listScript; s != nil && o.kind == "List" {
